@@ -133,7 +133,7 @@ func loadTrPkg(dir string) (*trPkg, error) {
 		return p, nil
 	}
 	fset := token.NewFileSet()
-	matches, _ := filepath.Glob(filepath.Join("/repo", dir, "*.go"))
+	matches, _ := filepath.Glob(filepath.Join(repoRoot(), dir, "*.go"))
 	sort.Strings(matches)
 	var files []*ast.File
 	for _, fn := range matches {
